@@ -189,5 +189,9 @@ PROGRAMS += [
                         IF(U('not_empty', V('x')), [inc('r', I(10))]),
                         IF(U('not_empty', V('y')), [inc('r', I(100))]),
                         RET(V('r'))]),
+    # `continue` fires in what should be the last round of a while loop: the condition must be evaluated again
+    ('while_continue_last', [let('i', I(0)), let('n', I(0)),
+                             WH(B('<', V('i'), I(5)), [inc('i'), IF(B('==', B('%', V('i'), I(2)), I(1)), [('continue',)]), inc('n', P('p1'))]),
+                             RET(B('+', B('*', V('i'), I(100)), V('n')))]),
 ]
 NAMES = [n for n, _ in PROGRAMS]
